@@ -121,7 +121,9 @@ func genTransform(t *rapid.T, label string) []TOp {
 	n := rapid.IntRange(0, 2).Draw(t, label+"nt")
 	var out []TOp
 	for i := 0; i < n; i++ {
-		switch rapid.IntRange(0, 6).Draw(t, label+"fn") {
+		switch rapid.IntRange(0, 7).Draw(t, label+"fn") {
+		case 7:
+			out = append(out, TOp{[]string{"skewX", "skewY"}[rapid.IntRange(0, 1).Draw(t, "skewxy")], []float64{float64(rapid.IntRange(-3, 3).Draw(t, "skew")) * 15}})
 		case 0:
 			out = append(out, TOp{"translate", []float64{float64(rapid.IntRange(-10, 20).Draw(t, "tx")), float64(rapid.IntRange(-10, 20).Draw(t, "ty"))}})
 		case 1:
@@ -130,7 +132,11 @@ func genTransform(t *rapid.T, label string) []TOp {
 			out = append(out, TOp{"scale", []float64{float64(rapid.IntRange(2, 6).Draw(t, "s")) / 4}})
 		case 3:
 			s := float64(rapid.IntRange(2, 6).Draw(t, "s")) / 4
-			out = append(out, TOp{"scale", []float64{s, s}})
+			s2 := s
+			if rapid.Bool().Draw(t, "aniso") {
+				s2 = float64(rapid.IntRange(2, 6).Draw(t, "s2")) / 4
+			}
+			out = append(out, TOp{"scale", []float64{s, s2}})
 		case 4:
 			out = append(out, TOp{"rotate", []float64{float64(rapid.IntRange(-6, 6).Draw(t, "rot")) * 15}})
 		case 5:
@@ -606,6 +612,10 @@ func opMat(op TOp) oracle.Mat {
 		return oracle.Translate(a[1], a[2]).Mul(oracle.Rotate(a[0])).Mul(oracle.Translate(-a[1], -a[2]))
 	case "matrix":
 		return oracle.Mat{a[0], a[2], a[4], a[1], a[3], a[5]}
+	case "skewX":
+		return oracle.Mat{1, math.Tan(a[0] * math.Pi / 180), 0, 0, 1, 0}
+	case "skewY":
+		return oracle.Mat{1, 0, 0, math.Tan(a[0] * math.Pi / 180), 1, 0}
 	}
 	return oracle.Identity()
 }
